@@ -342,7 +342,7 @@ def main():
     except ValueError:
         seed = 1
     runs = int(os.environ.get("PROBE_RUNS", "2000")) if os.environ.get("TW_OUT") else 2000
-    seeds = [seed] if tier == "quick" else list(range(seed, seed + 12))
+    seeds = [seed] if tier == "quick" else list(range(seed, seed + int(os.environ.get("THOROUGH_SEEDS", "48"))))
     t0 = time.time()
     os.makedirs(CACHE, exist_ok=True)
     os.makedirs(EVIDENCE, exist_ok=True)
@@ -356,9 +356,15 @@ def main():
     violation = None
     miri_execs = 0
     try:
-        for feats, binary in ([] if miri_only else feature_sets):
-            for s in seeds:
-                st, smp, hs = explore(prop, binary, feats, s, runs)
+        import concurrent.futures
+        jobs = [(feats, binary, s) for feats, binary in ([] if miri_only else feature_sets) for s in seeds]
+        # seeds are independent executions: the thorough tier runs them on all cores; results
+        # (and the first violation, if any) are taken in job order, so the outcome does not
+        # depend on which process finishes first
+        with concurrent.futures.ThreadPoolExecutor(max_workers=1 if tier == "quick" else int(os.environ.get("EXPLORE_JOBS", "16"))) as ex:
+            futs = [ex.submit(explore, prop, binary, feats, s, runs) for feats, binary, s in jobs]
+            for (feats, binary, s), fut in zip(jobs, futs):
+                st, smp, hs = fut.result()
                 hot_seconds += hs
                 per_config.append({"features": feats, "seed": s, **{k: st[k] for k in ("in_domain_executions", "distinct_keys", "keys_in_2plus_contexts", "faults_fired")}})
                 for k, v in st.items():
